@@ -11,7 +11,7 @@
 EXTENDS Index, Json
 
 CONSTANTS MaxLen,          \* bound on the history length
-          EventKinds,      \* subset of {"edit","avail","goto","imported","close","evict"}
+          EventKinds,      \* subset of {"edit","avail","goto","imported","close","evict","scan"}
           VersionsOf,      \* [Files -> Seq(Module)]
           DiskOf,          \* [Files -> Module or NoMod]: what is on disk (constant in a behaviour)
           HNames,
@@ -27,7 +27,11 @@ vars == <<hist, st>>
 ScanOrder == SetToSeqH({ f \in Files : DiskOf[f] # NoMod })
 RECURSIVE ScanAll(_, _)
 ScanAll(ix, o) == IF o = <<>> THEN ix ELSE ScanAll(AnalyzeFnD(ix, AllDevs, Head(o), DiskOf[Head(o)], FALSE), Tail(o))
-InitSt == [ix |-> ScanAll(EmptyIndex(HNames, DiskOf), ScanOrder),
+\* with "scan" among the event kinds the server starts UNSCANNED and the workspace scan is an event of the
+\* history (once): documents can be opened, edited and queried before the scan reaches the files
+StartScanned == "scan" \notin EventKinds
+InitSt == [ix |-> IF StartScanned THEN ScanAll(EmptyIndex(HNames, DiskOf), ScanOrder) ELSE EmptyIndex(HNames, DiskOf),
+           scanned |-> StartScanned,
            lastValid |-> [f \in Files |-> IF DiskOf[f] # NoMod /\ DiskOf[f].valid THEN DiskOf[f] ELSE Absent],
            okOrder |-> ScanOrder, ans |-> <<>>]
 
@@ -39,7 +43,9 @@ Step(s, D, ev) ==
            IN  [ix |-> AnalyzeFnD(s.ix, D, ev.f, m, TRUE),
                 lastValid |-> IF m.valid THEN [s.lastValid EXCEPT ![ev.f] = m] ELSE s.lastValid,
                 okOrder |-> IF m.valid THEN Append(SelectSeq(s.okOrder, LAMBDA g : g # ev.f), ev.f) ELSE s.okOrder,
+                scanned |-> s.scanned,
                 ans |-> <<>>]
+      [] ev.t = "scan" -> [s EXCEPT !.ix = ScanFn(s.ix, D), !.scanned = TRUE, !.ans = <<>>]
       [] ev.t = "avail" ->
            \* get_available_fixtures (resolver.rs:463-492): version check, compute, store
            LET hit == s.ix.availC[ev.f].ver = s.ix.version
@@ -62,8 +68,8 @@ RunFrom(s, D, h) == IF h = <<>> THEN s ELSE RunFrom(Step(s, D, Head(h)), D, Tail
 Run(h, D) == RunFrom(InitSt, D, h)
 
 IsQuery(ev) == ev.t \in {"avail", "goto", "imported"}
-EditsOf(h) == SelectSeq(h, LAMBDA ev : ev.t = "edit")
-NonEdits(h) == Len(SelectSeq(h, LAMBDA ev : ev.t # "edit"))
+EditsOf(h) == SelectSeq(h, LAMBDA ev : ev.t \in {"edit", "scan"})
+NonEdits(h) == Len(SelectSeq(h, LAMBDA ev : ev.t \notin {"edit", "scan"}))
 
 Ev(t, f, v, n) == [t |-> t, f |-> f, v |-> v, n |-> n]
 
@@ -78,13 +84,14 @@ Events(s) ==
           THEN { Ev("close", f, 0, "-") : f \in { g \in Files : s.ix.cached[g] # NoMod /\ s.ix.cached[g] = DiskOf[g] } } ELSE {})
     \cup (IF "evict" \in EventKinds
           THEN { Ev("evict", f, 0, "-") : f \in { g \in Files : s.ix.cached[g] # NoMod /\ s.ix.cached[g] = DiskOf[g] } } ELSE {})
+    \cup (IF "scan" \in EventKinds /\ ~s.scanned THEN { Ev("scan", "-", 0, "-") } ELSE {})
 
 ValidEvent(ev) == ev.t # "edit" \/ ev.v \in 1..Len(VersionsOf[ev.f])
 
 Init == hist = <<>> /\ st = InitSt
 Next == /\ Len(hist) < MaxLen
         /\ \E ev \in { e \in Events(st) : ValidEvent(e) } :
-             /\ (ev.t # "edit" => NonEdits(hist) < MaxQueries)
+             /\ (ev.t \notin {"edit", "scan"} => NonEdits(hist) < MaxQueries)
              /\ hist' = Append(hist, ev)
              /\ st' = Step(st, AllDevs, ev)
 Spec == Init /\ [][Next]_vars
@@ -123,7 +130,7 @@ WarmEqualsColdRepaired ==
 \* C06 (repaired design): navigation answers equal layer R on the latest valid content
 WsNow == st.lastValid
 RepairedHistoryEqualsR ==
-    (hist # <<>> /\ LastEv.t = "goto") =>
+    (hist # <<>> /\ LastEv.t = "goto" /\ st.scanned /\ StartScanned) =>
         Run(hist, {}).ans \in PyResolveSet(WsNow, LastEv.f, LastEv.n, NoDef)
 
 ----------------------------------------------------------------------------
@@ -227,4 +234,5 @@ HVersions7 ==
 HDisk7 == [f \in HFiles |-> HVersions7[f][1]]
 HKindsEdit == {"edit"}
 HKinds7 == {"edit", "avail", "goto", "imported", "close", "evict"}
+HKinds7Scan == {"avail", "goto", "imported", "close", "evict", "scan", "edit"}
 =============================================================================
